@@ -12,7 +12,8 @@ from harness.framework import Check
 
 PROP = "C14"
 FLAGS = ["q_excl_above_root", "q_excl_filename", "q_dirpat_prefix", "q_dirpat_filename", "q_doublestar_needs_dir",
-         "q_ti_shadows_config", "q_json_ignore_unused"]
+         "q_ti_shadows_config", "q_json_ignore_unused", "q_ignore_cwd_spelling"]
+ACTUAL = {f: f == "q_ignore_cwd_spelling" for f in FLAGS}      # Actual/CollectActual.v: the one finding that is still listed
 HEADER = ("From TL Require Import Lib.Base Lib.GenTypes Model.CollectStr Model.Glob Gen.CollectGen Model.Collect Model.CollectSpec "
           "Model.CollectRun Actual.CollectActual.\n")
 PLANT = 'print("x")\n'
@@ -31,12 +32,16 @@ ODD_FILES = [".pyc", ".so", "x.pyc.py", "y.PYC", "z.py.o", "k.obj.txt"]
 DIRNAME_FILES = ["legacy", "vendor", "generated", "src", "tests"]
 
 
+REROOTED = [False]     # does the source re-root cwd-relative paths before the ignore patterns are applied (mirror of Gen.ignore_rerooted)
+
+
 def code_tables():
     """the tables of the current source (so that an entry added to the code is exercised by the generator)"""
     sys.path.insert(0, str(VERIF))
     try:
         from translator import lib as tl
         tl._parse_cache.clear()
+        REROOTED[0] = "check_path = self._reroot(file_path, path_str)" in tl.source("src/linter_config/ignore.py")
         mod = tl.parse("src/orchestrator/core.py")
         return (tl.str_elems(tl.find_assign(mod, "_HARDCODED_EXCLUDE_DIRS")), tl.str_elems(tl.find_assign(mod, "_HARDCODED_EXCLUDE_EXTENSIONS")))
     except Exception:  # noqa: BLE001  (fail-closed is the translator's job; the generator just loses this source of names)
@@ -234,12 +239,52 @@ def finish_case(c, r=None):
             tgt = r.choice(deep) if deep and r.random() < 0.8 else (r.choice(clean) if clean and r.random() < 0.5 else [])
             if len(list(files_of(subtree(kids, tgt)))) <= 30 or cli:
                 obs.append(["dir", r.random() < 0.3, tgt, "par"])
+        if r is not None and r.random() < 0.2:
+            # several targets in one run (execute_linting_on_paths): some named files and some directories
+            fs = list(files_of(kids))
+            obs.append(["mixed", r.random() < 0.6, (not cli or True) and r.random() < 0.25, r.sample(fs, min(len(fs), r.randint(1, 4))),
+                        r.sample(clean, min(len(clean), r.randint(1, 3)))])
         c["obs"] = obs
-    if c["via"] == "cli" and r is not None and c["place"] == "plain" and c["cfg_kind"] == "yaml" and r.random() < 0.5 \
+    if c["via"] == "cli" and r is not None and c["place"] == "plain" and c["cfg_kind"] == "yaml" and r.random() < 0.3 \
             and not any(k[0] == "F" and k[1] == "src.py" for k in kids) and not any(d[-1] == ".git" for d in dirs_of(kids)):
         # (without --project-root the root is auto-detected from the target: a generated nested .git directory would be taken for it)
         c["spelling"] = "rel"
+    elif r is not None and c["spelling"] == "abs" and r.random() < 0.16:
+        # the targets are spelled relative to another working directory: a directory of the project, the parent of the
+        # project root, or its grandparent (the project root itself is always named explicitly in these runs)
+        x = r.random()
+        if x < 0.25:
+            c["spelling"] = "rel"
+        elif x < 0.7 and clean:
+            c["spelling"], c["cwd_in"] = "in", r.choice(clean)
+        else:
+            c["spelling"] = r.choice(["up1", "up1", "up2"])
     return c
+
+
+def spelling_of(case):
+    """(kind, components): ("abs", None) | ("in", directory of the project that is the cwd) | ("up", directories from the cwd down to the root)"""
+    sp = case["spelling"]
+    if sp == "abs":
+        return "abs", None
+    if sp == "rel":
+        return "in", []
+    if sp == "in":
+        return "in", list(case["cwd_in"])
+    return "up", (["proj"] if sp == "up1" else [("up" if case["place"] == "plain" else case["place"]), "proj"])
+
+
+def relpath_comps(c, p):
+    """os.path.relpath on component lists (mirror of Collect.relpath)"""
+    i = 0
+    while i < len(c) and i < len(p) and c[i] == p[i]:
+        i += 1
+    return [".."] * (len(c) - i) + p[i:]
+
+
+def spelled(case, p):
+    kind, comps = spelling_of(case)
+    return p if kind == "abs" else relpath_comps(comps, p) if kind == "in" else comps + p
 
 
 # ------------------------------------------------------------------ rendering + implementation
@@ -296,20 +341,57 @@ def second_state(case):
     c2.update({"ti": case["rerun"]["ti"], "cfg": case["rerun"]["cfg"], "rerun": None, "i": f"{case['i']}:rerun", "kids": json.loads(json.dumps(case["kids"]))})
     c2 = finish_case(c2)
     c2["origin"] = {k: v for k, v in case.items()}     # a replay has to go through the first state again
-    c2["obs"] = [o for o in c2["obs"] if o[0] == "files" or (o[1] and not o[2])]
+    c2["obs"] = [o for o in c2["obs"] if o[0] == "files" or (o[0] == "dir" and o[1] and not o[2])]
     return c2
 
 
-def _api_obs(root, o):
+def _cwd_of(case, root: Path, base: Path) -> Path:
+    kind, comps = spelling_of(case)
+    if kind == "abs":
+        return base
+    if kind == "in":
+        return root.joinpath(*comps)
+    return root.parent if len(comps) == 1 else root.parent.parent
+
+
+def _arg(case, root: Path, comps) -> str:
+    """the path of the project-relative components as the user spells it"""
+    if case["spelling"] == "abs":
+        return str(root.joinpath(*comps))
+    return "/".join(spelled(case, list(comps))) or "."
+
+
+def _norm(pairs, root: Path, cwd: Path):
+    """(rule_id, file_path) of the violations -> sorted set of project-relative posix paths"""
+    out = set()
+    for rule, fp in pairs:
+        p = Path(fp)
+        if not p.is_absolute() and not str(rule).startswith("file-placement"):
+            p = Path(os.path.normpath(cwd / p))          # other rules report the path as it was given
+        if p.is_absolute():
+            try:
+                p = p.relative_to(root)
+            except ValueError:
+                pass
+        out.add(p.as_posix())
+    return sorted(out)
+
+
+def _api_obs(case, root, cwd, o):
     orch = make_orchestrator(root, None)
-    tgt = root / "/".join(o[2]) if o[0] == "dir" and o[2] else root
-    if o[0] == "dir" and len(o) > 3:
-        vs = orch.lint_directory_parallel(tgt, recursive=o[1], max_workers=2)
+    if o[0] == "mixed":
+        from src.cli.utils import execute_linting_on_paths
+        paths = [Path(_arg(case, root, p)) for p in o[3]] + [Path(_arg(case, root, d)) for d in o[4]]
+        vs = execute_linting_on_paths(orch, paths, o[1], o[2])
     elif o[0] == "dir":
-        vs = orch.lint_directory(tgt, recursive=o[1])
+        tgt = Path(_arg(case, root, o[2]))
+        if len(o) > 3:
+            vs = orch.lint_directory_parallel(tgt, recursive=o[1], max_workers=2)
+        else:
+            vs = orch.lint_directory(tgt, recursive=o[1])
     else:
-        vs = orch.lint_files([root / "/".join(p) for p in o[1]])
-    return _paths([str(v.file_path) for v in vs], root)
+        vs = orch.lint_files([Path(_arg(case, root, p)) for p in o[1]])
+    return _norm([(v.rule_id, str(v.file_path)) for v in vs], root, cwd)
 
 
 def run_impl(case):
@@ -318,38 +400,55 @@ def run_impl(case):
     mp.current_process()._config["daemon"] = False   # the pool worker must be allowed to start the linter's own worker processes
     with scratch_dir("tv-c14-") as base:
         root = write_project(case, base)
+        cwd = _cwd_of(case, root, base)
         res, fails = [], []
         if case["via"] == "cli":
             for o in case["obs"]:
-                if o[0] == "dir":
-                    tgt = (root / "/".join(o[2])) if case["spelling"] == "abs" else Path("/".join(o[2]) or ".")
-                    args = ["file-placement", "--format", "json"] + ([] if o[1] else ["--no-recursive"]) + (["--parallel"] if len(o) > 3 else []) + [str(tgt)]
+                if o[0] == "mixed":
+                    args = ["file-placement", "--format", "json"] + ([] if o[1] else ["--no-recursive"]) + (["--parallel"] if o[2] else []) \
+                        + [_arg(case, root, p) for p in o[3]] + [_arg(case, root, d) for d in o[4]]
+                elif o[0] == "dir":
+                    args = ["file-placement", "--format", "json"] + ([] if o[1] else ["--no-recursive"]) + (["--parallel"] if len(o) > 3 else []) + [_arg(case, root, o[2])]
                 else:
-                    args = ["file-placement", "--format", "json"] + [str(root / "/".join(p)) if case["spelling"] == "abs" else "/".join(p) for p in o[1]]
-                if case["spelling"] == "abs":
+                    args = ["file-placement", "--format", "json"] + [_arg(case, root, p) for p in o[1]]
+                if case["spelling"] != "rel":
                     args = ["--project-root", str(root)] + args
-                # cwd: `python -m` puts it first on sys.path, so a generated src.py in the project root must not be the cwd
-                rc, so, se = run_cli(args, cwd=root if case["spelling"] == "rel" else base, home=base)
+                # PYTHONSAFEPATH: `python -m` must not put the cwd (which may hold a generated src.py) first on sys.path
+                rc, so, se = run_cli(args, cwd=cwd, home=base, env_extra={"PYTHONSAFEPATH": "1"})
                 vs = parse_json_violations(so)
                 if vs is None or rc not in (0, 1):
                     res.append({"error": f"rc={rc} stdout={so[:200]} stderr={se[-300:]}"})
                 else:
-                    res.append(_paths([v["file_path"] for v in vs], root))
+                    res.append(_norm([(v["rule_id"], v["file_path"]) for v in vs], root, cwd))
             return {"runs": res, "failures": []}
-        for o in case["obs"]:
-            res.append(_api_obs(root, o))
-            fails += drain_failures()
-        out = {"runs": res, "failures": fails}
-        if case.get("rerun"):
-            # same process, same paths, new state of .thailintignore / the config's ignore list; the module-level parser
-            # cache is reset through the public helper, as a long-lived caller would do after editing the files
-            from src.linter_config.ignore import clear_ignore_parser_cache
-            c2 = second_state(case)
-            write_sources(c2, root)
-            clear_ignore_parser_cache()
-            runs2 = [_api_obs(root, o) for o in c2["obs"]]
-            out["rerun"] = {"case": c2, "impl": {"runs": runs2, "failures": drain_failures()}}
-        return out
+        old = os.getcwd()
+        try:
+            if case["spelling"] != "abs":
+                os.chdir(cwd)
+            for o in case["obs"]:
+                try:
+                    res.append(_api_obs(case, root, cwd, o))
+                except Exception as e:  # noqa: BLE001  (a crashing run is reported as a violation with this case as the replay)
+                    res.append({"error": f"{type(e).__name__}: {e}"[:400]})
+                fails += drain_failures()
+            out = {"runs": res, "failures": fails}
+            if case.get("rerun"):
+                # same process, same paths, new state of .thailintignore / the config's ignore list; the module-level parser
+                # cache is reset through the public helper, as a long-lived caller would do after editing the files
+                from src.linter_config.ignore import clear_ignore_parser_cache
+                c2 = second_state(case)
+                write_sources(c2, root)
+                clear_ignore_parser_cache()
+                runs2 = []
+                for o in c2["obs"]:
+                    try:
+                        runs2.append(_api_obs(c2, root, cwd, o))
+                    except Exception as e:  # noqa: BLE001
+                        runs2.append({"error": f"{type(e).__name__}: {e}"[:400]})
+                out["rerun"] = {"case": c2, "impl": {"runs": runs2, "failures": drain_failures()}}
+            return out
+        finally:
+            os.chdir(old)
 
 
 # ------------------------------------------------------------------ Python mirrors of Model/CollectSpec.v and Model/Collect.v
@@ -405,6 +504,8 @@ def py_all_files(kids, rel, recursive):
 
 
 def py_spec(case, o):
+    if o[0] == "mixed":
+        return sorted(set(py_spec(case, ["files", o[3]])).union(*[py_spec(case, ["dir", o[1], d]) for d in o[4]]))
     files = py_all_files(subtree(case["kids"], o[2]), o[2], o[1]) if o[0] == "dir" else o[1]
     return sorted({"/".join(p) for p in files if py_spec_ok(case, p)})
 
@@ -421,12 +522,14 @@ def py_matches(q, path, pat):
 
 
 def py_model(case, o, q):
+    if o[0] == "mixed":
+        return sorted(set(py_model(case, ["files", o[3]], q)).union(*[py_model(case, ["dir", o[1], d], q) for d in o[4]]))
     ti = None if case["ti"] is None else [x for x in (render_line(l).strip() for l in case["ti"]) if x and not x.startswith("#")]
     cfg = [render_pat(p) for p in (case["cfg"] or [])]
     if case["cfg_kind"] == "json" and q["q_json_ignore_unused"]:
         cfg = []
     pats = cfg if ti is None else ti + ([] if q["q_ti_shadows_config"] else cfg)
-    ab = [] if case["spelling"] == "rel" else ["/", "scratch", "tv-c14", ("up" if case["place"] == "plain" else case["place"]), "proj"]
+    ab = model_abs(case)
 
     def walk(kids, rel, recursive):
         out = [rel + [c[1]] for c in kids if c[0] == "F" and py_suffix(c[1]) not in SPEC_EXTS]
@@ -440,15 +543,30 @@ def py_model(case, o, q):
         parts = (ab if q["q_excl_above_root"] else []) + (p if q["q_excl_filename"] else p[:-1])
         if py_suffix(p[-1]) in SPEC_EXTS or any(py_excl_dir(x) for x in parts):
             return False
-        return not any(py_matches(q, "/".join(p), pt) for pt in pats)
+        cp = p
+        if q["q_ignore_cwd_spelling"] and not REROOTED[0] and case["spelling"] != "abs":
+            cp = spelled(case, o[2]) + p[len(o[2]):] if o[0] == "dir" else spelled(case, p)
+        return not any(py_matches(q, "/".join(cp), pt) for pt in pats)
     files = walk(subtree(case["kids"], o[2]), o[2], o[1]) if o[0] == "dir" else o[1]
     return sorted({"/".join(p) for p in files if linted(p)})
 
 
+def model_abs(case):
+    """the components in front of the project-relative path in the path objects handed to lint_file (only their names matter)"""
+    kind, comps = spelling_of(case)
+    if kind == "abs":
+        return ["/", "scratch", "tv-c14", ("up" if case["place"] == "plain" else case["place"]), "proj"]
+    return [] if kind == "in" else comps
+
+
+def coq_spelling(case):
+    kind, comps = spelling_of(case)
+    return "SAbs" if kind == "abs" else f"({'SInside' if kind == 'in' else 'SAbove'} {cl(comps)})"
+
+
 def py_verdict(case, o, r):
     """the bits the Coq judge returns, computed by the mirrors: [impl=spec, ideal=spec, in_domain, impl=cand...]"""
-    off = {f: False for f in FLAGS}
-    cands = [off] + [{**off, f: True} for f in FLAGS] + [off]
+    cands = [ACTUAL] + [{**ACTUAL, f: not ACTUAL[f]} for f in FLAGS] + [{f: False for f in FLAGS}]
     sp = py_spec(case, o)
     return [r == sp, py_model(case, o, cands[-1]) == sp, True] + [r == py_model(case, o, c) for c in cands]
 
@@ -492,13 +610,13 @@ def coq_case(case, impl) -> str:
     obs = []
     for o, r in zip(case["obs"], impl["runs"]):
         r = r if isinstance(r, list) else ["<error>"]
-        if o[0] == "dir":
+        if o[0] == "mixed":
+            obs.append(f"(OMixed {coq.coq_bool(o[1])} {coq.coq_bool(o[2])} {coq.coq_list([cl(p) for p in o[3]])} {coq.coq_list([cl(d) for d in o[4]])} {cl(r)})")
+        elif o[0] == "dir":
             obs.append(f"({'ODirPar' if len(o) > 3 else 'ODir'} {coq.coq_bool(o[1])} {cl(o[2])} {cl(r)})")
         else:
             obs.append(f"(OFiles {coq.coq_list([cl(p) for p in o[1]])} {cl(r)})")
-    # the components in front of the project-relative path: only their names matter to the model
-    ab = [] if case["spelling"] == "rel" else ["/", "scratch", "tv-c14", ("up" if case["place"] == "plain" else case["place"]), "proj"]
-    return f"judge collect_actual {cl(ab)} {coq_tree(case['kids'])} {coq_sources(case)} {coq.coq_list(obs)}"
+    return f"judge collect_actual {cl(model_abs(case))} {coq_spelling(case)} {coq_tree(case['kids'])} {coq_sources(case)} {coq.coq_list(obs)}"
 
 
 def judge(cases, impls, workdir: Path, per_shard=20):
@@ -556,10 +674,20 @@ def gen_name(r):
 def leaf_checks(seed, n, cases, workdir):
     """returns (number of comparisons, list of disagreements)"""
     import fnmatch
+    import warnings
+    warnings.simplefilter("ignore")      # re warns about "possible nested set" for patterns such as [a[b]
     from src.linter_config.pattern_utils import extract_patterns_from_content, matches_pattern
     from src.orchestrator import core
     r = rng_for(seed, PROP, "leaf")
     pairs = [(gen_name(r), gen_glob(r)) for _ in range(n)]
+    # bracket expressions of any shape: hyphens anywhere, reversed ranges, "--", leading "!" "^" "]" "[", backslashes, set operators, unclosed
+    balpha = ["a", "b", "c", "z", "A", "-", "-", "-", "!", "]", "[", "^", "\\", "0", "9", ".", "/", "&", "~", "|", "*", "?"]
+
+    def bracket():
+        return "[" + r.choice(["", "", "!"]) + "".join(r.choice(balpha) for _ in range(r.randint(0, 6))) + r.choice(["]", "]", "]", ""])
+    for _ in range(n // 2):
+        pairs.append(("".join(r.choice(balpha + ["x", "5"]) for _ in range(r.randint(0, 4))),
+                      "".join(r.choice([bracket(), bracket(), "*", "?", "a", "b", "-", "x"]) for _ in range(r.randint(1, 3)))))
     # patterns and paths of the generated cases (documented forms against real project-relative paths)
     mp = []
     for c in cases[: max(40, n // 40)]:
@@ -628,6 +756,7 @@ def corpus_cases():
         c.setdefault("ti", None)
         c.setdefault("cfg", None)
         c.setdefault("rerun", None)
+        c.setdefault("cwd_in", [])
         c["i"] = "corpus:" + p.stem
         out.append(finish_case(c))
     return out
@@ -642,10 +771,11 @@ def run(tier: str, seed: int, replay: str | None = None) -> int:
                 "x observations: recursive and non-recursive run on the root and on sub-directories, one run naming every file explicitly, for a fraction a run through "
                 "lint_directory_parallel(max_workers=2) / --parallel (mostly non-recursive on a directory with populated sub-directories), and for a fraction a second state of "
                 "the ignore sources linted afterwards in the same process on the same paths (expected: the specification on the current state) "
-                "(in-process Orchestrator, a fraction through the CLI, absolute and cwd-relative spelling, a fraction of projects under an excluded-named parent); "
+                "(in-process Orchestrator, a fraction through the CLI; targets spelled absolutely, or relative to a working directory that is the project root, another "
+                "directory of the project, the parent or the grandparent of the root; a fraction of projects under an excluded-named parent); "
                 "a case is non-trivial when the recursive root run reports some but not all files of the tree; distinct = distinct (tree, sources, placement)")
     chk.trusted_base += [
-        "Model/Glob.v is a model of CPython's fnmatch (library oracle): validated on every run against fnmatch.fnmatch on generated (name, pattern) pairs (leaf level); bracket expressions with ill-formed ranges are outside the generated class",
+        "Model/Glob.v is a model of CPython's fnmatch (library oracle): validated on every run against fnmatch.fnmatch on generated (name, pattern) pairs (leaf level), including bracket expressions of any shape (hyphens anywhere, reversed ranges, leading ! ^ ] [, backslashes, set operators, unclosed brackets); names and patterns are byte strings (ASCII in the generated class: a non-ASCII character is several bytes to the model but one character to fnmatch)",
         "Model/CollectStr.v primitives (PurePath.suffix/.parts, str.strip/rstrip/startswith/endswith) validated against CPython at the leaf level; content.splitlines() of .thailintignore, yaml.safe_load / json.load of the config and os.walk are oracles (the abstract input is the list of lines / the ignore list / the directory tree)",
         "the control flow of _collect_files_fast, lint_file, lint_directory, lint_files, _load_repo_ignores and execute_linting_on_paths is hand-modelled in Model/Collect.v (shape-checked by the translator, fingerprinted, tied by the observable-level correspondence)",
         "observation = set of file_path values of the reported violations with a planted violation in every file; 'the file reached the rules' is inferred from it",
@@ -700,7 +830,7 @@ def run(tier: str, seed: int, replay: str | None = None) -> int:
     if cands_all is not None and not cands_all[0]:
         alt = [i for i, ok in enumerate(cands_all) if ok]
         if alt:
-            names = ["actual"] + [f"actual with the former defect {f}" for f in FLAGS] + ["ideal"]
+            names = ["actual"] + [f"actual with {f} toggled" for f in FLAGS] + ["ideal"]
             chk.notes.append("implementation no longer matches the claimed quirk vector but matches: " + names[alt[0]] +
                              " (a listed defect is no longer observed; theorems hold for every vector)")
         else:
@@ -729,12 +859,13 @@ def decide(chk, cases, impls, verdicts, state):
         if mirror_only:     # the model could not be evaluated in Coq: fall back to the hand-written mirrors (a broken obligation is already recorded)
             ver = [py_verdict(case, o, r) if isinstance(r, list) else [0] * (3 + len(FLAGS) + 2) for o, r in zip(case["obs"], impl["runs"])]
         for o, r, bits in zip(case["obs"], impl["runs"], ver):
-            chk.dist("obs:" + (o[0] + ("" if o[0] == "files" else ":recursive" if o[1] else ":flat") + ("" if o[0] == "files" or not o[2] else ":subdir")
+            chk.dist("obs:" + ("mixed" + (":parallel" if o[2] else "") if o[0] == "mixed" else
+                               o[0] + ("" if o[0] == "files" else ":recursive" if o[1] else ":flat") + ("" if o[0] == "files" or not o[2] else ":subdir")
                                + (":parallel" if o[0] == "dir" and len(o) > 3 else "")))
             if str(case["i"]).endswith(":rerun"):
                 chk.dist("obs:second-state-same-process")
             if isinstance(r, dict):
-                chk.violation({"reason": "CLI run failed", "detail": r, "observation": o, "case": case})
+                chk.violation({"reason": "the run failed (exception / unexpected exit status)", "detail": r, "observation": o, "case": case})
                 continue
             chk.traces_validated += 1
             spec_ok, ideal_ok, in_dom, cand = bool(bits[0]), bool(bits[1]), bool(bits[2]), [bool(b) for b in bits[3:]]
@@ -751,13 +882,18 @@ def decide(chk, cases, impls, verdicts, state):
                 continue
             info = {"observation": o, "impl": r, "case": case, "model_actual_matches_impl": cand[0], "model_ideal_matches_spec": ideal_ok,
                     "reason": "the set of files that produced a violation differs from: files beneath the target minus always-excluded directories, compiled artefacts and ignore-pattern matches"}
-            # no finding of this property is still listed as known (Actual/CollectActual.v has every flag off): every failure is a
-            # violation.  If the failure is exactly a former defect (mirror with that one flag on) it is named, which makes the
-            # framework report "recorded as fixed but observed again".
-            off = {f: False for f in FLAGS}
-            named = [f for f in FLAGS if py_model(case, o, {**off, f: True}) == r]
-            still_known = [f for f in named if f in chk.known["known"]]
-            if named and (still_known or all(f in chk.known["fixed"] for f in named)):
+            known_on = [f for f in FLAGS if ACTUAL[f]]
+            if cand[0] and ideal_ok and py_model(case, o, ACTUAL) == r:
+                # explained by the findings that are still listed: the claimed model (Coq, following Gen) and its hand-written
+                # mirror both predict exactly this output, and with the flags off the model meets the specification
+                relevant = [f for f in known_on if not cand[1 + FLAGS.index(f)]] or known_on
+                for f in relevant:
+                    chk.known_finding(f, {k: v for k, v in info.items() if k != "reason"})
+                continue
+            # otherwise a violation; if the failure is exactly a former defect (mirror with that one flag on) it is named, which
+            # makes the framework report "recorded as fixed but observed again"
+            named = [f for f in FLAGS if not ACTUAL[f] and py_model(case, o, {**ACTUAL, f: True}) == r]
+            if named and all(f in chk.known["fixed"] for f in named):
                 for f in named:
                     chk.known_finding(f, {k: v for k, v in info.items() if k != "reason"})
             else:
